@@ -1,11 +1,14 @@
 """C13 planar subdivision bookkeeping (partly decided)."""
-from rules import sweeprules, pirules
+from rules import sweeprules, pirules, fillrules
 
 LEVEL = 'other'
 EXPLANATION = __doc__
 
 
 def run(ctx, rep):
+    fillrules.check_process_polygon(ctx, rep)
+    fillrules.check_fill_queue(ctx, rep)
+    fillrules.check_divide(ctx, rep, rules=('S-divide', None))
     sweeprules.check_loop(ctx, rep)
     sweeprules.check_break(ctx, rep)
     sweeprules.check_comparator(ctx, rep)
